@@ -215,14 +215,18 @@ pub fn near_family(rng: &mut Rng, tag: &str) -> Family {
         base.replace('é', "e\u{301}"),
         format!("{base}\n\n"),
     ];
-    // three of them, in random order, around the base key at a random position
-    for i in (1..vars.len()).rev() {
-        let j = rng.below(i as u64 + 1) as usize;
-        vars.swap(i, j);
+    // three of them around the base key: always one that differs by a trailing line break, one that differs by a
+    // trailing / leading blank, TAB, NUL or slash, and one of the case / composition / double-line-break variants.
+    // The base key and the line-break twin come first (the callers exercise the first three keys in turn and
+    // race on the fourth)
+    let lb = vars[rng.below(2) as usize].clone();
+    let ws = vars[2 + rng.below(5) as usize].clone();
+    let other = vars[7 + rng.below(3) as usize].clone();
+    vars.clear();
+    let mut keys: Vec<String> = if rng.chance(1, 2) { vec![base.clone(), lb, ws, other] } else { vec![lb, base.clone(), other, ws] };
+    if rng.chance(1, 3) {
+        keys.swap(2, 3);
     }
-    let mut keys: Vec<String> = vars.into_iter().take(3).collect();
-    let at = rng.below(4) as usize;
-    keys.insert(at, base.clone());
     Family { what: format!("4 near-identical keys: {:?}", keys), keys }
 }
 
